@@ -30,7 +30,10 @@ def text_info(t):
 
 
 TEXT_POOL = ["1234", "-17", "0", "true", "FALSE", "TRUE", "false", "hello", "Test string", "{123 val 7654}", "{ a  b }", "a=b=c", "x;y", "p # q",
-             "2147483647", "12abc", "3.5", "0.25", "1e3", "-2.5e-1", "", "{}", "{x}", "value with spaces", "7", "UPPER"]
+             "2147483647", "12abc", "3.5", "0.25", "1e3", "-2.5e-1", "", "{}", "{x}", "value with spaces", "7", "UPPER",
+             # lists: element lengths in every order (the getter re-uses one scratch buffer), blanks and tabs as separators, with and without
+             # a blank before the closing brace
+             "{10 5}", "{alpha be c}", "{12345 c2 1 }", "{ab\tcdef\tg}", "{1 22 333 22 1}", "{longest-first x}"]
 DOUBLES = {"1234": 1234.0, "-17": -17.0, "0": 0.0, "3.5": 3.5, "0.25": 0.25, "1e3": 1000.0, "-2.5e-1": -0.25, "2147483647": 2147483647.0, "7": 7.0}
 
 
